@@ -8,7 +8,8 @@ Leg M   : TLC explores the builder state machine of TrackModel.tla (abstract tra
           violate the property in the model (self-test).
 Leg S2C : every reachable file of the exhaustive run (TLC -dump) and the final files of TLC -simulate behaviours over
           wide alphabets are RENDERED into real track directories (track.json with {{ p | default(v) }} parameters,
-          {{ rally.collect(parts=...) }} includes, operations inline or by name, shuffled keys ...) and loaded with the
+          {{ rally.collect(parts=...) }} includes one and two levels deep (a part in a sub-directory that includes a further part
+          relative to its own directory), operations inline or by name, shuffled keys ...) and loaded with the
           real TrackFileReader.read (a sample also through loader.load_track); the returned Track object is projected
           back to the record format of the model, an exception is recorded by class.
 Leg C2S : every recorded load (those of S2C and seeded random files with much wider alphabets that are not derived from
@@ -86,7 +87,7 @@ def _signature(case, clauses, out_kind):
     """Kind of failing input (scalars only, for known-findings matching):
     Rejection   -> which documented rules the accepted file breaks; for 'mixing' which timing attributes one task combines
     ValidLoads / Fidelity -> how includes are written, as what the valid file was rejected, whether a supplied parameter is
-                   referenced only inside an included part"""
+                   referenced only inside an included part, whether a part includes a second-level part"""
     names = sorted({c.split(":")[0] for c in clauses})
     sig = {"clause": ",".join(names)}
     rules = sorted({c.split(":")[1] for c in clauses if c.startswith("Rejection:")})
@@ -99,6 +100,7 @@ def _signature(case, clauses, out_kind):
         sig["collect"] = case["style"]["collect"]
         sig["rejected_as"] = out_kind or "loaded"
         sig["supplied_param_only_in_included_part"] = _param_only_in_part(case["f"])
+        sig["nested_include"] = any(k in case["f"]["parts"] for k in ("opsN", "sched", "docs"))
     return sig
 
 
@@ -200,7 +202,7 @@ def run(ctx, out):
     out.assumptions = [
         "Jinja2, the json module and the jsonschema library are trusted (jsonschema's self-check of the constant track schema is run once per distinct schema, not per load)",
         "the track format is exercised through the constructs the harness renders: literal values, {{ p | default(v) }} parameters (numbers, task names, inside strings), "
-        "rally.collect(parts=...) includes with and without blanks inside the braces, operations by name / by type / inline, single-string or list tags, shuffled keys, "
+        "rally.collect(parts=...) includes with and without blanks inside the braces, one and two levels deep (second-level pattern relative to the including part's directory), operations by name / by type / inline, single-string or list tags, shuffled keys, "
         "optional version / description; index / template bodies, custom parameter sources and track plugins are not exercised",
         "'track syntax or configuration error' = exceptions.InvalidSyntax (incl. loader.TrackSyntaxError), exceptions.TrackConfigError, exceptions.ConfigError; any other exception class "
         "or a returned track counts as not rejected",
@@ -238,7 +240,7 @@ def run(ctx, out):
     lap("model checking and self-tests done")
     # ---- S2C: reachable files -> real track directories -> real loader
     dump_file = dump + ".dump" if os.path.exists(dump + ".dump") else dump
-    cases, per_rule, nstates = cases_from_dump(ctx, dump_file, rnd, {"none": 100000} if ctx.quick else {"none": 25000}, 150 if ctx.quick else 2000)
+    cases, per_rule, nstates = cases_from_dump(ctx, dump_file, rnd, {"none": 100000} if ctx.quick else {"none": 25000}, 110 if ctx.quick else 2000)
     if nstates != res.distinct:
         raise tlc.MachineryError("dump has %d states, TLC reported %d" % (nstates, res.distinct))
     missing = [r for r in L1_RULES if per_rule.get(r, 0) == 0]
@@ -249,7 +251,7 @@ def run(ctx, out):
     sims = cases_from_sim(res_sim, simdir, out, rnd)
     out.note("leg S2C: %d TLC -simulate behaviours (wide alphabets, valid for 5 builder steps, then up to 9 more; mean size of the final file %.1f)" % (len(sims), sum(tg.size(c["f"]) for c in sims) / max(1.0, float(len(sims)))))
     lap("simulation done")
-    rnds = random_cases(ctx.seed + 1010, 600 if ctx.quick else 8000)
+    rnds = random_cases(ctx.seed + 1010, 500 if ctx.quick else 8000)
     allcases = cases + sims + rnds
 
     root = os.path.join(tlc.scratch("c10tracks"), "t")
